@@ -79,11 +79,13 @@ def plan(run):
     P.append(('numpy', (9, 9, 9), -1, (16, 16, 4), {'rate_true': 32}))
     # SEG-Y routes
     # inline counts below, at and above a multiple of the block height (the last plane set full / short)
-    segy_shapes = [(5, 6, 70), (9, 4, 33), (8, 5, 20), (16, 3, 9), (4, 4, 8)] if quick else [(5, 6, 70), (9, 4, 33), (4, 4, 64), (2, 2, 2), (13, 9, 130), (8, 8, 8), (8, 5, 20), (16, 3, 9), (12, 7, 9), (24, 2, 5)]
+    # (and more than one block along the crossline AND the sample axis: the order in which a plane set's blocks are queued)
+    segy_shapes = [(5, 6, 70), (9, 4, 33), (8, 5, 20), (16, 3, 9), (4, 4, 8), (6, 11, 40)] if quick else [(5, 6, 70), (9, 4, 33), (4, 4, 64), (2, 2, 2), (13, 9, 130), (8, 8, 8), (8, 5, 20), (16, 3, 9), (12, 7, 9), (24, 2, 5), (6, 11, 40), (5, 19, 70)]
     for shape in segy_shapes:
         for rate, bs in ((16, None), (32, (8, 8, 16)), (8, (4, 4, -1)), (32, (4, 8, 32))):
             for route, opts in (('segy', {'fmt': 5}), ('segy', {'fmt': 1}), ('segy-iops', {'fmt': 5}), ('segy-iops', {'fmt': 1}),
-                                ('segy', {'fmt': 5, 'ext': 1}), ('segy-iops', {'fmt': 5, 'ext': 2}), ('cli', {'fmt': 5})):
+                                ('segy', {'fmt': 5, 'ext': 1}), ('segy-iops', {'fmt': 5, 'ext': 2}), ('cli', {'fmt': 5}),
+                                ('segy', {'fmt': 1, 'sort': 'xl'}), ('segy-iops', {'fmt': 5, 'sort': 'xl'})):     # crossline-sorted sources
                 if quick and (rate, bs) not in ((16, None), (32, (8, 8, 16))) and route != 'segy':
                     continue
                 if route == 'cli' and isinstance(rate, Fr):
@@ -108,9 +110,12 @@ def _make(item):
         else:
             sgy = os.path.join(d, f'f{k}.sgy')
             inputs.write_segy(sgy, cube, np.arange(shape[0]) + 3, np.arange(shape[1]) * 2 + 10, np.arange(shape[2]) * 4.0,
-                              fmt=opts.get('fmt', 5), ext_text=opts.get('ext', 0))
+                              fmt=opts.get('fmt', 5), ext_text=opts.get('ext', 0), sorting=opts.get('sort', 'il'))
             with segyio.open(sgy, strict=False) as f:
-                src = np.stack([np.asarray(f.trace[t]) for t in range(f.tracecount)]).reshape(shape).astype(np.float32)
+                src = np.stack([np.asarray(f.trace[t]) for t in range(f.tracecount)])
+            if opts.get('sort') == 'xl':      # file order is crossline-major; the cube is the same cube
+                src = src.reshape(shape[1], shape[0], shape[2]).transpose(1, 0, 2)
+            src = np.ascontiguousarray(src.reshape(shape).astype(np.float32))
             if route == 'cli':
                 from click.testing import CliRunner
                 from seismic_zfp.cli import cli
